@@ -390,7 +390,7 @@ def sample_envs(vars_, rng, n):
             if w == 0:
                 env[nm] = rng.random() < 0.5
             else:
-                bnd = [0, 1, (1 << w) - 1, 1 << (w - 1), (1 << (w - 1)) - 1, w % (1 << w), (w - 1) % (1 << w)]
+                bnd = [0, 1, (1 << w) - 1, 1 << (w - 1), (1 << (w - 1)) - 1, w % (1 << w), (w - 1) % (1 << w), (1 << (w - 1)) | 1, (3 << max(w - 2, 0)) % (1 << w)]
                 env[nm] = rng.choice(bnd) if rng.random() < 0.4 else rng.getrandbits(w)
         out.append(env)
     return out
